@@ -22,6 +22,19 @@ def merged_defs(files):
     return out
 
 
+def rename_fragment(doc, old, new):
+    def ren(sel):
+        for x in sel:
+            if x["k"] == "spread" and x["name"] == old:
+                x["name"] = new
+            if x["k"] == "inline" or (x["k"] == "field" and x["hasSel"]):
+                ren(x["sel"])
+    for d in doc["defs"]:
+        ren(d["sel"])
+        if d["k"] == "frag" and d["name"] == old:
+            d["name"] = new
+
+
 def make_case(ctx, i, small):
     r = ctx.rng
     base = c10.make_case(ctx, i)
@@ -32,8 +45,12 @@ def make_case(ctx, i, small):
     defs = merged_defs(base["schemaFiles"])
     eg = EG.ExecGen(defs, r)
     doc = eg.document(r.below(3))
-    if small:
-        pass
+    if not small and r.chance(1, 25):
+        # a fragment called like an identifier the declaration file uses itself (the schema namespace import, the imported helper type, the
+        # operation's own result / variables type or document constant): spec-valid, but its exported type and constant take that very name
+        frs = [d for d in doc["defs"] if d["k"] == "frag"]
+        if frs:
+            rename_fragment(doc, frs[0]["name"], r.choice(["Schema", "TypedDocumentNode", "OpResult", "OpVariables", "OpQuery"]))
     base["opFiles"] = [{"path": ["ops", "q.graphql"], "doc": doc}]
     base["typeNames"] = [("OpResult" if d["k"] == "op" else d["name"]) for d in doc["defs"]]
     if r.chance(1, 3):
